@@ -46,7 +46,7 @@ LEVEL_NOTE = ("Not covered by the theorems: the values of the Normal/Student qua
 TECHNIQUE = "Lean 4 proof (real analysis: Complex.arg half-angle, sqrt) + source-to-Lean translator + correspondence + XML oracle"
 
 ALGS = ["gso", "svd", "cholesky", "envelope"]
-SIGMAS = [0.1, 0.5, 1, 2, 7.5, 10, 33, 100]
+SIGMAS = [0.001, 0.01, 0.1, 0.5, 1, 2, 7.5, 10, 33, 100, 1000, 10000]      # sigma-apr/stdev over 1e-4 .. 1e4
 
 
 # ------------------------------------------------------------------------------------ translate
@@ -119,23 +119,132 @@ def with_coords_cluster(rng, net, correlated):
     return net
 
 
-def gen_network(rng, quick=True):
+def spd_cov(rng, n, correlated, lo=2.0, hi=6.0):
+    """exactly symmetric positive definite n x n matrix  L L'  (diagonal when not correlated)"""
+    L = [[0.0] * n for _ in range(n)]
+    for i in range(n):
+        for j in range(i + 1):
+            L[i][j] = rng.uniform(lo, hi) if i == j else (rng.uniform(-2, 2) if correlated else 0.0)
+    return [[sum(L[i][k] * L[j][k] for k in range(n)) for j in range(n)] for i in range(n)]
+
+
+def diag_block_network(rng):
+    """BOUNDARY family for the ellipse: points whose 2x2 cofactor block is EXACTLY diagonal
+    (q_xy == 0.0): q_yy > q_xx, q_yy < q_xx, q_yy == q_xx (circle, c == 0).  Such a point is determined only by
+    <coordinates> clusters / <vectors> from a fixed point with diagonal covariance, or by one distance along the
+    x axis and one along the y axis.  An ordinary trilaterated point is added so that the network is not trivial."""
+    pts = {"F1": {"x": 1000.0, "y": 1000.0, "status": "fix", "approx": True},
+           "F2": {"x": 1200.0, "y": 1050.0, "status": "fix", "approx": True},
+           "F3": {"x": 1100.0, "y": 1300.0, "status": "fix", "approx": True}}
+    obs = []
+    if rng.random() < 0.7:
+        q = {"x": 1090.0 + rng.uniform(-20, 20), "y": 1110.0 + rng.uniform(-20, 20), "status": "adj", "approx": True}
+        pts["Q"] = q
+        items = []
+        for f in ("F1", "F2", "F3") + (("F1",) if rng.random() < 0.7 else ()):
+            sd = rng.choice([1.0, 3.0, 5.0])
+            items.append({"t": "distance", "to": f, "stdev": sd, "val": gen_net.dist2(q, pts[f]) + rng.gauss(0, sd / 1e3)})
+        obs.append({"kind": "obs", "from": "Q", "orient": 0.0, "items": items})
+    variants = []
+    for k in range(rng.randint(1, 3)):
+        pid = f"D{k + 1}"
+        how = rng.choice(["coords", "coords", "coords2", "vector", "cross"])
+        shape = rng.choice(["y>x", "y>x", "x>y", "circle"])
+        sx = rng.choice([1.0, 2.0, 3.0])
+        sy = sx if shape == "circle" else (sx * rng.choice([2.0, 3.0, 5.0]) if shape == "y>x" else sx / rng.choice([2.0, 4.0]))
+        p = {"x": 1000.0 + 100.0 * rng.randint(0, 9), "y": 2000.0 + 100.0 * rng.randint(0, 9), "status": "adj", "approx": True}
+        pts[pid] = p
+        variants.append(f"{how}:{shape}")
+        if how in ("coords", "coords2"):
+            for rep in range(2 if how == "coords2" else 1):
+                f = rng.choice([1.0, 2.0]) if rep else 1.0           # same ordering of the two variances in every cluster
+                obs.append({"kind": "coords", "band": 0, "cov": [[(sx * f) ** 2, 0.0], [0.0, (sy * f) ** 2]],
+                            "items": [{"id": pid, "x": p["x"] + rng.gauss(0, sx / 1e3), "y": p["y"] + rng.gauss(0, sy / 1e3)}]})
+        elif how == "vector":                                        # 3D point tied to a fixed 3D point by one vector
+            pts.setdefault("G", {"x": 900.0, "y": 1900.0, "z": 100.0, "status": "fix", "approx": True})
+            p["z"] = 120.0
+            g = pts["G"]
+            cov = [[sx ** 2, 0, 0], [0, sy ** 2, 0], [0, 0, 4.0]]
+            for rep in range(rng.randint(1, 2)):
+                obs.append({"kind": "vectors", "band": 0, "cov": cov,
+                            "items": [{"from": "G", "to": pid, "dx": p["x"] - g["x"] + rng.gauss(0, sx / 1e3),
+                                       "dy": p["y"] - g["y"] + rng.gauss(0, sy / 1e3), "dz": p["z"] - g["z"] + rng.gauss(0, 2e-3)}]})
+        else:                                                        # one distance along x, one along y (dof 0 or 1)
+            ax, ay = f"{pid}x", f"{pid}y"
+            pts[ax] = {"x": p["x"] + 300.0, "y": p["y"], "status": "fix", "approx": True}
+            pts[ay] = {"x": p["x"], "y": p["y"] + 400.0, "status": "fix", "approx": True}
+            items = [{"t": "distance", "to": ax, "stdev": sx, "val": 300.0}, {"t": "distance", "to": ay, "stdev": sy, "val": 400.0}]
+            obs.append({"kind": "obs", "from": pid, "orient": 0.0, "items": items})
+    net = {"dim": 2, "points": pts, "obs": obs,
+           "params": {"sigma-apr": 10, "conf-pr": 0.95, "tol-abs": 1000, "sigma-act": "aposteriori"}}
+    return "diagblock[" + ",".join(sorted(set(variants))) + "]", net
+
+
+def net3d(rng):
+    """3D networks: xyz unknowns, slope distances, zenith angles, height differences (optionally with a covariance
+    matrix), vector clusters (identity / diagonal / banded / full covariance)"""
+    kinds = rng.choice([("direction", "distance", "s-distance", "z-angle"), ("direction", "s-distance", "z-angle", "dh"),
+                        ("direction", "distance", "z-angle", "vector"), ("s-distance", "z-angle", "dh", "vector"),
+                        ("direction", "distance", "dh", "vector")])
+    net = gen_net.make_network(rng, npts=rng.randint(4, 6), dim=3, nfixed=2, kinds=kinds, noise=1.0,
+                               density=rng.uniform(0.6, 0.95), heights=rng.random() < 0.4,
+                               stdev_dir=rng.choice([5.0, 10.0, 20.0]), stdev_dist=rng.choice([2.0, 5.0, 8.0]))
+    fam = "net3d"
+    for o in net["obs"]:
+        if o["kind"] == "vectors":
+            n = 3 * len(o["items"])
+            mode = rng.choice(["identity", "diag", "band", "full"])
+            if mode != "identity":
+                o["cov"] = spd_cov(rng, n, mode in ("band", "full"), 1.0, 3.0)
+                o["band"] = 0 if mode == "diag" else (2 if mode == "band" else n - 1)
+                if mode == "band":
+                    for i in range(n):
+                        for j in range(n):
+                            if abs(i - j) > 2:
+                                o["cov"][i][j] = 0.0
+                    for i in range(n):                      # keep it diagonally dominant => positive definite
+                        o["cov"][i][i] = 1.0 + sum(abs(o["cov"][i][j]) for j in range(n) if j != i)
+            fam += "-vec:" + mode
+        if o["kind"] == "hdiffs":
+            n = len(o["items"])
+            mode = rng.choice(["plain", "diag", "full"])
+            if mode != "plain":
+                o["cov"] = spd_cov(rng, n, mode == "full", 0.8, 2.0)
+                o["band"] = 0 if mode == "diag" else n - 1
+                for it in o["items"]:
+                    it.pop("stdev", None)
+            fam += "-dh:" + mode
+    return fam, net
+
+
+def spread_stdevs(rng, net):
+    """one or two observations much more / much less precise than the rest (stdev x 1e-2 .. 1e2)"""
+    items = [it for o in net["obs"] if o["kind"] in ("obs", "hdiffs") for it in o["items"] if "stdev" in it]
+    for it in rng.sample(items, min(len(items), rng.randint(1, 2))):
+        it["stdev"] = round(it["stdev"] * rng.choice([0.01, 0.1, 10.0, 100.0]), 6)
+
+
+def gen_network(rng, quick=True, boundary=False):
     """returns (family, net) ; family names the generator branch"""
     r = rng.random()
-    if r < 0.22:
+    if boundary or r < 0.08:
+        fam, net = diag_block_network(rng)
+    elif r < 0.18:
+        fam, net = net3d(rng)
+    elif r < 0.32:
         dof = rng.choice([0, 0, 1, 1, 2, 3])
         net = small_dof_network(rng, dof)
         fam = f"smalldof{dof}"
         if net is None:
             return gen_network(rng, quick)
-    elif r < 0.32:
+    elif r < 0.40:
         extra = rng.choice([0, 1, 2, 4])
         net = gen_net.levelling_network(rng, npts=rng.randint(3, 6), nfixed=1, extra=extra, noise=1.0,
                                         free=rng.random() < 0.3)
         for it in net["obs"][0]["items"]:
             it["stdev"] = round(math.sqrt(it.pop("dist")) * rng.choice([1.0, 2.0]), 4)
         fam = "level"
-    elif r < 0.55:
+    elif r < 0.58:
         net = gen_net.make_network(rng, npts=rng.randint(4, 6), nfixed=0, free=True, noise=1.0,
                                    kinds=rng.choice([("direction", "distance"), ("distance",), ("direction", "distance", "angle")]),
                                    density=rng.uniform(0.5, 0.9),
@@ -157,24 +266,44 @@ def gen_network(rng, quick=True):
     else:
         kinds = rng.choice([("direction", "distance"), ("distance",), ("direction", "distance", "angle"),
                             ("direction", "distance", "azimuth")])
-        net = gen_net.make_network(rng, npts=rng.randint(3, 7), nfixed=rng.randint(1 if "azimuth" in kinds else 2, 3),
+        npts = rng.randint(3, 7)
+        net = gen_net.make_network(rng, npts=npts, nfixed=min(npts - 1, rng.randint(1 if "azimuth" in kinds else 2, 3)),
                                    noise=1.0, kinds=kinds,
                                    density=rng.uniform(0.4, 0.9),
                                    stdev_dir=rng.choice([5.0, 10.0, 20.0]), stdev_dist=rng.choice([2.0, 5.0, 8.0]))
         fam = "fixed2d"
-    net["params"]["sigma-apr"] = rng.choice(SIGMAS)
+    if rng.random() < 0.15:
+        spread_stdevs(rng, net)
+    net["params"]["sigma-apr"] = rng.choice(sigma_choices(net))
     net["params"]["conf-pr"] = rng.choice([0.5, 0.9, 0.95, 0.99, round(rng.uniform(0.02, 0.995), 3)])
     net["params"]["sigma-act"] = rng.choice(["apriori", "aposteriori"])
     return fam, net
+
+
+def sigma_choices(net, lo=1e-3, hi=1e4):
+    """values of sigma-apr with lo <= sigma-apr/stdev <= hi for every observation (the weights (sigma-apr/stdev)^2
+    then span 1e-6 .. 1e8).  Below ~1.2e-4 envelope/cholesky refuse regular networks (finding C09-F2)."""
+    fs = flat_stdevs(net) or []
+    sds = [sd for sd, _ in fs if sd] or [1.0]
+    ok = [s for s in SIGMAS if s / max(sds) >= lo and s / min(sds) <= hi]
+    return ok or [10]
 
 
 def flat_stdevs(net):
     """a priori standard deviations in the order gama numbers the observations, with band flag; None if unknown"""
     out = []
     for o in net["obs"]:
-        if o["kind"] in ("obs", "hdiffs"):
+        if o["kind"] == "obs" or (o["kind"] == "hdiffs" and not o.get("cov")):
             for it in o["items"]:
                 out.append((it.get("stdev"), 0))
+        elif o["kind"] == "hdiffs":
+            cov = o["cov"]
+            for k in range(len(o["items"])):
+                out.append((math.sqrt(cov[k][k]), o.get("band", len(cov) - 1)))
+        elif o["kind"] == "vectors":
+            cov = o.get("cov")
+            for k in range(3 * len(o["items"])):
+                out.append((math.sqrt(cov[k][k]) if cov else 1.0, (o.get("band", len(cov) - 1) if cov else 0)))
         elif o["kind"] == "coords":
             cov, k = o["cov"], 0
             for it in o["items"]:
@@ -304,9 +433,10 @@ def parse_xml(text):
         d = {"t": om.group(1)}
         for k2 in ("obs", "adj", "stdev", "qrr", "f", "std-residual", "err-obs", "err-adj"):
             d[k2] = num(k2, blk)
-        m = re.search(r"<id>(.*?)</id>", blk)
-        if m:
-            d["id"] = m.group(1).strip()
+        for k3 in ("id", "from", "to"):
+            m = re.search(rf"<{k3}>(.*?)</{k3}>", blk)
+            if m:
+                d[k3] = m.group(1).strip()
         R["obs"].append(d)
     return R
 
@@ -317,6 +447,73 @@ ANGULAR = {"direction", "angle", "zenith-angle", "azimuth"}
 def eig2(cxx, cxy, cyy):
     c = math.hypot(cxx - cyy, 2 * cxy)
     return (cxx + cyy + c) / 2, (cxx + cyy - c) / 2, c
+
+
+def oracle_accessor(op, rep):
+    """One harness line `kind inputs => reported` recomputed in Python from the definition (independent of the Lean
+    model and of the translator).  Returns a list of (what, detail)."""
+    t = op.split()
+    kind, bad = t[0], []
+    F = hex2float
+
+    def close(what, got, want, rtol=1e-11, atol=0.0):
+        if got != got and want != want:
+            return
+        if got == want:
+            return
+        if got != got or want != want or abs(got - want) > atol + rtol * max(abs(got), abs(want)):
+            bad.append((what, f"reported={got!r} definition={want!r}"))
+
+    try:
+        if kind == "dof":
+            r, c, d = int(t[1]), int(t[2]), int(t[3])
+            if int(rep[0]) != r - c + d:
+                bad.append(("accessor degrees_of_freedom = rows - cols + defect", f"reported={rep[0]} rows={r} cols={c} defect={d}"))
+        elif kind == "m0":
+            act, sapr, phi, dof = t[1], F(t[2]), F(t[3]), int(t[4])
+            ap = math.sqrt(phi / dof) if dof > 0 and phi >= 0 else 0.0
+            close("accessor m_0_aposteriori_value = sqrt(v'Pv/dof)", F(rep[1]), ap)
+            close("accessor m_0 (selection by sigma-act)", F(rep[0]), sapr if act == "apriori" else ap)
+        elif kind == "conf":
+            act, dof, nv, sv = t[1], int(t[3]), F(t[5]), F(t[6])
+            want = nv if act == "apriori" else (sv if dof > 0 else 0.0)
+            close("accessor conf_int_coef = Normal | Student by sigma-act", F(rep[0]), want, rtol=0.0)
+        elif kind == "unk":
+            m0, q = F(t[1]), F(t[2])
+            if q >= 0:
+                close("accessor unknown_stdev = m0 sqrt(q_xx)", F(rep[0]), m0 * math.sqrt(q))
+        elif kind == "obs":
+            m0, sapr, qbb, sd, r = (F(x) for x in t[1:6])
+            w, sl, qvv, sres, stud, f = (F(x) for x in rep[:6])
+            p = (sapr / sd) ** 2
+            close("accessor weight_obs = (sigma_apr/stdev)^2", w, p)
+            if qbb >= 0:
+                close("accessor stdev_obs = m0 sqrt(q_bb) stdev / sigma_apr", sl, m0 / sapr * math.sqrt(qbb) * sd)
+                close("accessor obs_control = 100|1-sqrt(q_bb)|", f, 100 * abs(1 - math.sqrt(qbb)), atol=1e-12)
+            qd = (1 - qbb) / p
+            # q_vv = 1/p - q_L exactly as a relative statement: no absolute threshold may enter
+            close("accessor wcoef_res = 1/p - q_L (clamped at 0 only when negative)", qvv, qd if qd >= 0 else 0.0)
+            sr = m0 * math.sqrt(abs(qvv))
+            close("accessor stdev_res = m0 sqrt(|q_vv|)", sres, sr)
+            close("accessor studentized_residual = r/stdev_res", stud, (r / sres) if sres > 0 else 0.0)
+        elif kind == "ell":
+            cyy, cyx, cxx, m0 = (F(x) for x in t[1:5])
+            a, b, al = (F(x) for x in rep[:3])
+            l1, l2, c = eig2(cxx, cyx, cyy)
+            tr = cxx + cyy
+            if tr > 0 and cxx >= 0 and cyy >= 0:
+                close("accessor ellipse a = m0 sqrt(larger eigenvalue)", a, m0 * math.sqrt(max(l1, 0.0)), rtol=1e-9)
+                close("accessor ellipse b = m0 sqrt(smaller eigenvalue)", b * b, m0 * m0 * max(l2, 0.0), atol=1e-9 * m0 * m0 * tr, rtol=1e-9)
+                u = (math.cos(al), math.sin(al))
+                res = math.hypot(cxx * u[0] + cyx * u[1] - l1 * u[0], cyx * u[0] + cyy * u[1] - l1 * u[1])
+                if res > 1e-9 * tr:
+                    bad.append(("accessor ellipse: (cos alfa, sin alfa) is an eigenvector for the major axis",
+                                f"alfa={al!r} cxx={cxx!r} cxy={cyx!r} cyy={cyy!r} |(C - l1 I)u|={res:.3e} trace={tr:.3e}"))
+            if not (0 <= al <= math.pi):
+                bad.append(("accessor ellipse alfa in [0, pi)", repr(al)))
+    except (ValueError, IndexError, ZeroDivisionError, OverflowError) as e:
+        bad.append(("accessor line unreadable", f"{op} => {rep}: {e!r}"))
+    return bad
 
 
 def oracle_xml(R, net, stdevs):
@@ -421,6 +618,16 @@ def oracle_xml(R, net, stdevs):
             i = idx[(o["id"], o["t"][-1])]
             chk(f"{tag} stdev of adjusted coordinate observation = sqrt(cov-mat diagonal) (band={band})",
                 o["stdev"], math.sqrt(max(cov[(i, i)], 0.0)), rtol=2e-7, atol=1e-9, key="sigmaL_coord")
+        # dx, dy, dz, height-diff are exactly linear: adjusted value = unknown(to) - unknown(from)
+        comp = {"dx": "x", "dy": "y", "dz": "z", "height-diff": "z"}.get(o["t"])
+        if comp and "from" in o and "to" in o:
+            ks = [(idx.get((o["to"], comp)), 1.0), (idx.get((o["from"], comp)), -1.0)]
+            ks = [(i, a) for i, a in ks if i is not None]
+            if all((i, j) in cov for i, _ in ks for j, _ in ks):
+                var = sum(a * b * cov[(i, j)] for i, a in ks for j, b in ks)
+                sc = sum(cov[(i, i)] for i, _ in ks)
+                chk(f"{tag} stdev of adjusted linear observation = sqrt(a' cov-mat a) (band={band})",
+                    o["stdev"] ** 2, max(var, 0.0), rtol=1e-6, atol=1e-6 * sc + 1e-12, key="sigmaL_linear")
         if band != 0:
             continue
         if m0x > 0:
@@ -568,7 +775,7 @@ def build_cases(ctx, tmp, count):
     corpus = ctx.verif / "corpus" / "C09"
     for f in sorted(corpus.glob("*.json")):
         j = json.loads(f.read_text())
-        cases.append({"fam": "corpus:" + f.stem, "net": j["net"], "alg": j.get("alg", "gso")})
+        cases.append({"fam": "corpus:" + f.stem, "net": j["net"], "alg": j.get("alg", "gso"), "sigma_apr_2": j.get("sigma_apr_2")})
     while len(cases) < count:
         fam, net = gen_network(ctx.rng)
         cases.append({"fam": fam, "net": net, "alg": ctx.rng.choice(ALGS)})
@@ -601,6 +808,23 @@ def check_cases(ctx, corr, cases, exe, gama, tmp, do_pairs=True):
         ops, exp, com = split_harness(impl[i])
         drv_cases.append(ops)
         meta.append((i, exp, com))
+        abad = []
+        for op, e in zip(ops, exp):
+            abad += [(w, d + "   [" + op.split()[0] + " line of the in-process LocalNetwork]") for w, d in oracle_accessor(op, e)]
+            if op.startswith("ell "):
+                cyy, cyx, cxx = (hex2float(x) for x in op.split()[1:4])
+                corr.count("ellipse_block_" + ("exact_diag_" + ("circle" if cyy == cxx else "y>x" if cyy > cxx else "x>y")
+                                               if cyx == 0.0 else "general"))
+            if op.startswith("obs "):
+                tt = op.split()
+                q = abs(hex2float(e[2]))
+                corr.count("qvv_decade_" + ("0" if q == 0 else "<1e-9" if q < 1e-9 else "<1e-6" if q < 1e-6 else "<1e-3" if q < 1e-3
+                                            else "<1" if q < 1 else "<1e3" if q < 1e3 else ">=1e3"))
+        corr.count("accessor_definitions_checked", len(ops))
+        if abad:
+            corr.fail("LocalNetwork accessor differs from its definition: " + abad[0][0],
+                      payload(c, {"violations": [list(b) for b in abad[:8]], "oracle": "accessor"}),
+                      "LocalNetwork statistics accessors", "\n".join(f"{a}: {b}" for a, b in abad[:8]))
     model, mcr = run_cases(ctx.driver("drv_stats"), drv_cases)
     maxdev = 0.0
     for k, (i, exp, com) in enumerate(meta):
@@ -710,7 +934,7 @@ def check_cases(ctx, corr, cases, exe, gama, tmp, do_pairs=True):
             if c.get("R") is None or npairs >= ctx.size(150, 3000):
                 continue
             s1 = float(c["net"]["params"]["sigma-apr"])
-            s2 = ctx.rng.choice([s for s in SIGMAS if s != s1])
+            s2 = c.get("sigma_apr_2") or ctx.rng.choice([s for s in sigma_choices(c["net"]) if s != s1] or [s1 * 3])
             net2 = copy.deepcopy(c["net"])
             net2["params"]["sigma-apr"] = s2
             p2 = tmp / f"n{i}b.gkf"
@@ -753,34 +977,91 @@ def correspond(ctx, corr):
         shutil.rmtree(tmp, ignore_errors=True)
 
 
+def boundary_cases(ctx, tmp, count):
+    """families that sit on the branch points of the formulas: exactly diagonal 2x2 blocks (q_yy >, <, = q_xx; c == 0),
+    weights (sigma-apr/stdev)^2 from 1e-6 to 1e8 incl. single very precise / very poor observations, dof 0/1,
+    free networks (defect 3), both sigma-act, all four algorithms"""
+    cases = []
+    k = 0
+    while len(cases) < count:
+        k += 1
+        if k % 2:
+            fam, net = diag_block_network(ctx.rng)
+        else:
+            fam, net = gen_network(ctx.rng)
+            fam = "ratio:" + fam
+        spread_stdevs(ctx.rng, net)
+        ch = sigma_choices(net)
+        net["params"]["sigma-apr"] = ctx.rng.choice([ch[0], ch[-1], ctx.rng.choice(ch)])       # ends of the admissible range
+        net["params"]["sigma-act"] = ctx.rng.choice(["apriori", "aposteriori"])
+        net["params"]["conf-pr"] = ctx.rng.choice([0.5, 0.95, 0.999, 0.01])
+        for alg in (ALGS if k % 2 else [ctx.rng.choice(ALGS)]):
+            cases.append({"fam": "boundary:" + fam, "net": net, "alg": alg})
+    for i, c in enumerate(cases):
+        c["path"] = tmp / f"n{i}.gkf"
+        c["path"].write_text(gen_net.to_gkf(c["net"], algorithm=c["alg"], nd=10))
+    return cases
+
+
 def search(ctx, broken, corr):
-    """something broke (proof / translator / correspondence) and the always-on oracle saw nothing: look harder"""
+    """something broke (proof / translator / correspondence) and the always-on oracle saw nothing: sweep the boundary
+    families, then a larger general sample, before giving up"""
     d, objs = libgama_objects(ctx)
     exe = ctx.build_cpp("c09_stats", [ctx.verif / "harness" / "c09_stats.cpp"], libs=objs + ["-lexpat"],
                         includes=[ctx.verif / "harness"])
-    tmp = Path(tempfile.mkdtemp(prefix="c09s-", dir=str(ctx.build)))
-    c2 = Corr()
-    try:
-        cases = build_cases(ctx, tmp, 400)
-        check_cases(ctx, c2, cases, exe, d / "gama-local", tmp)
-        fails = list(c2.failures)
-        if not fails:
-            # a correspondence disagreement is a formula that no longer is the modelled one: the inputs of that
-            # formula on the real network are the concrete failing input
-            for dis in (corr.disagreements + c2.disagreements)[:1]:
-                fails.append(Failure("statistic accessor no longer equals the modelled formula: " + dis["stream"],
-                                     {"op": dis["case"], "impl": dis["impl"], "model": dis["model"], "why": dis["why"]},
-                                     "LocalNetwork " + dis["stream"], json.dumps(dis)[:1500]))
-        return fails
-    finally:
-        shutil.rmtree(tmp, ignore_errors=True)
+    fails, dis = [], list(corr.disagreements)
+    for stage, maker in (("boundary", lambda t: boundary_cases(ctx, t, 600)), ("general", lambda t: build_cases(ctx, t, 1500))):
+        tmp = Path(tempfile.mkdtemp(prefix="c09s-", dir=str(ctx.build)))
+        c2 = Corr()
+        try:
+            check_cases(ctx, c2, maker(tmp), exe, d / "gama-local", tmp)
+        finally:
+            shutil.rmtree(tmp, ignore_errors=True)
+        ctx.log(f"search stage {stage}: {c2.evaluations} evaluations, {len(c2.failures)} failures, {len(c2.disagreements)} disagreements")
+        dis += c2.disagreements
+        fails = [f for f in c2.failures if classify(ctx, f) is None] or fails
+        if fails:
+            break
+    if not fails:
+        # a correspondence disagreement is a formula that no longer is the modelled one: the inputs of that
+        # formula on the real network are the concrete failing input
+        for di in dis[:1]:
+            fails.append(Failure("statistic accessor no longer equals the modelled formula: " + di["stream"],
+                                 {"op": di["case"], "impl": di["impl"], "model": di["model"], "why": di["why"]},
+                                 "LocalNetwork " + di["stream"], json.dumps(di)[:1500]))
+    return fails
+
+
+F1_MARKS = ("stdev of adjusted coordinate observation", "stdev of adjusted linear observation")
+
+
+def weight_range(net):
+    fs = flat_stdevs(net) or []
+    sds = [sd for sd, _ in fs if sd] or [1.0]
+    s = float(net["params"]["sigma-apr"])
+    return (s / max(sds)) ** 2, (s / min(sds)) ** 2
 
 
 def classify(ctx, failure):
     p = failure.replay if isinstance(failure.replay, dict) else {}
     v = p.get("violations") or []
-    if v and all("stdev of adjusted coordinate observation" in x[0] and "(band=0)" not in x[0] for x in v):
+    # F1: every violated field is the sigma_L of an exactly linear observation of a cluster with band != 0
+    if v and all(any(m in x[0] for m in F1_MARKS) and "(band=0)" not in x[0] for x in v):
         return "C09-F1"
+    # F2: envelope / cholesky test pivots against the ABSOLUTE tolerance sqrt(eps) = 1.5e-8, while pivots scale with
+    # the weights (sigma-apr/stdev)^2: weights below ~1e-6 make a regular network "singular", weights above ~1e5 hide the
+    # zero pivots of a free network; shows as a refusal or as removed points (different numbers of equations /
+    # unknowns) for one sigma-apr of a pair only
+    if "net" in p and p.get("alg") in ("cholesky", "envelope"):
+        nets = [p["net"]]
+        if p.get("sigma_apr_2"):
+            n2 = copy.deepcopy(p["net"])
+            n2["params"]["sigma-apr"] = p["sigma_apr_2"]
+            nets.append(n2)
+        small = min(weight_range(n)[0] for n in nets) < 1.5e-6 or max(weight_range(n)[1] for n in nets) > 1e5
+        structural = ("refused" in failure.what) or (v and v[0][0] in ("eq", "unk", "dof", "defect", "observation count"))
+        if small and structural:
+            return "C09-F2"
     return None
 
 
@@ -801,12 +1082,24 @@ def replay(ctx, payload):
             print("gama-local did not produce a result:", tail)
             return 1
         bad, n, mx = oracle_xml(R, inp["net"], flat_stdevs(inp["net"]))
+        # the accessors of the in-process LocalNetwork against their definitions
+        d2, objs = libgama_objects(ctx)
+        exe = ctx.build_cpp("c09_stats", [ctx.verif / "harness" / "c09_stats.cpp"], libs=objs + ["-lexpat"],
+                            includes=[ctx.verif / "harness"])
+        impl, _ = run_cases(exe, [[f"load {p} -"]])
+        ops, exp, _ = split_harness(impl[0])
+        for op, e in zip(ops, exp):
+            bad += oracle_accessor(op, e)
+            n += 1
         if inp.get("sigma_apr_2"):
             net2 = copy.deepcopy(inp["net"])
             net2["params"]["sigma-apr"] = inp["sigma_apr_2"]
             p2 = tmp / "replay2.gkf"
             p2.write_text(gen_net.to_gkf(net2, algorithm=inp.get("alg"), nd=10))
             R2, _, _ = run_gama(d / "gama-local", p2, tmp / "replay2.xml")
+            if R2 is None:
+                bad.append(("changing only sigma-apr turns an adjustable network into a refused one",
+                            f"sigma-apr={inp['net']['params']['sigma-apr']} adjusts, sigma-apr={inp['sigma_apr_2']} is refused ({inp.get('alg')})"))
             if R2 is not None:
                 b2, _ = oracle_pair(R, R2, float(inp["net"]["params"]["sigma-apr"]), float(inp["sigma_apr_2"]))
                 bad += b2
